@@ -12,7 +12,7 @@ RULE = ("every case is executed on hash_based / kdtree and on nearest_neighbor; 
         "reference {(i,j,lev)<=k} and the engines' sets with each other (differential); non-trivial = expected set non-empty")
 ASSUMPTIONS = ["hash_based is exponential in max_edits: k=2 up to U(.,4)/(thorough U(.,5) one alphabet), k=3 only on U(.,2)",
                "kdtree radius-boundary family uses homopolymer blocks so that the composition vectors differ by exactly sqrt(2)*k"]
-REQUIRED_CLASSES = {"all": ["bin-straddling-alphabet", "radius-boundary-pair", "duplicate-at-distance-0", "has-empty-string", "size-boundary-family", "equal-length-pair-needs-indels", "long-anagram-pair", "all-sequences-of-one-length", "shared-prefix-and-suffix", "default-call-after-option-call", "one-composition-many-sequences"]}
+REQUIRED_CLASSES = {"all": ["bin-straddling-alphabet", "radius-boundary-pair", "duplicate-at-distance-0", "has-empty-string", "size-boundary-family", "equal-length-pair-needs-indels", "long-anagram-pair", "all-sequences-of-one-length", "shared-prefix-and-suffix", "default-call-after-option-call", "one-composition-many-sequences", "hash_based-k3-sparse"]}
 MIN_OUTCOMES = 10
 
 ALPHAS = ("ACD", "DEF", "WYA")   # straddle kdtree composition bins at compression 1, 2, 3 (aminoacids = ACDEFGHIKLMNPQRSTVWY)
@@ -58,6 +58,8 @@ def spaces(tier):
                 yield ("samecomp", word, copies)
         if not q:
             yield ("hash4",)
+        for si in range(len(SPARSE3)):
+            yield ("hash3-sparse", si)
         yield ("sizefam", "kdtree", 1025, 2)
         for N in (257, 1025):
             yield ("sizefam", "hash_based", N, 1)
@@ -83,6 +85,9 @@ def spaces(tier):
         Space("all-lists-three-engines", gen_lists, "Lists(U(AC,2),3|4) x k in 1..2 on hash_based, kdtree, nearest_neighbor (k=3: kdtree only)"),
         Space("cdr3-edit-ball-families", gen_family, "complete 20-letter one-edit ball around %d CDR3 seeds: kdtree k in 1..2, hash_based k=1" % len(CDR3_SEEDS), per_case=True),
     ]
+
+
+SPARSE3 = (("ACD", "EFG", "WW"), ("AC", "", "A", "C", "AD", "CC", "ACD", "ACDE", "WWWWW"), ("CAF", "CSY", "AAF", "WWW", "C"), ("ACDE", "AFGH", "W"))
 
 
 def compare(acc, case, eng, seqs, k, expected, small):
@@ -158,6 +163,15 @@ def check_case(case, acc):
             exp = neighbors_within(hub, k)
             for eng in ("kdtree", "hash_based"):
                 compare(acc, case, eng, hub, k, exp, True)
+    elif kind == "hash3-sparse":
+        # sparse collections at radius 3: the strings between two neighbours (their "stepping stones") are not in the collection,
+        # and a sequence has more than five distinct neighbours
+        acc.cls("hash_based-k3-sparse")
+        seqs = SPARSE3[case[1]]
+        for k in (3, 2):
+            exp = neighbors_within(list(seqs), k)
+            for eng in ("hash_based", "kdtree"):
+                compare(acc, ("one", eng, tuple(seqs), k), eng, seqs, k, exp, True)
     elif kind == "hash4":
         acc.cls("hash_based-k4")
         seqs = ["", "AC", "A"]
